@@ -628,6 +628,8 @@ def _snapshot(fd):
     """Everything the object holds, by value: values, sampling points (and standardised points), per component / per label."""
     if hasattr(fd, "data") and isinstance(getattr(fd, "data"), list):
         return [_snapshot(c) for c in fd.data]
+    if hasattr(fd, "coefficients"):
+        return {"coefficients": np.array(fd.coefficients, dtype=float, copy=True).tolist(), "basis": _snapshot(fd.basis)}
     v = fd.values
     if hasattr(v, "keys"):
         return {"values": {int(k): np.array(v[k], dtype=float, copy=True).tolist() for k in sorted(v)},
